@@ -21,6 +21,17 @@ Check(it) ==
             l2 == it.out = Code(b, it.v)
         IN /\ IF l1 = {} THEN TRUE ELSE PrintT(<<"V", it.id, 1, "L1", l1>>)
            /\ IF l1 # {} \/ l2 THEN TRUE ELSE PrintT(<<"V", it.id, 1, "L2", {}>>)
+    ELSE IF it.kind = "updirty" THEN
+        \* the working copy is on master with an uncommitted edit that conflicts with every other remote branch (L = {master}):
+        \* L1: Rally ends on the documented best match or reports an error, never on another branch;
+        \* L2: the code reports the error exactly when it has to leave master for a versioned branch
+        LET R == ToSet(it.R)  L == ToSet(it.L)  T == ToSet(it.T)
+            exp == Update(TRUE, R, L, T, it.v, Best)
+            cexp == Update(TRUE, R, L, T, it.v, Code)
+            l1 == IF it.out = NoBranch \/ it.out = exp THEN {} ELSE {"UsesBestOrError"}
+            l2 == it.out = (IF cexp.k = "v" THEN NoBranch ELSE cexp)
+        IN /\ IF l1 = {} THEN TRUE ELSE PrintT(<<"V", it.id, 1, "L1", l1>>)
+           /\ IF l1 # {} \/ l2 THEN TRUE ELSE PrintT(<<"V", it.id, 1, "L2", {}>>)
     ELSE
         LET R == ToSet(it.R)  L == ToSet(it.L)  T == ToSet(it.T)
             exp == Update(it.hasRemote, R, L, T, it.v, Best)
